@@ -90,6 +90,10 @@ def step (op : String) (gs : List (List Int)) : String :=
     okG [((multiCoilFold (fun row : List Int => row.map fun v => a * v + k) c.toNat xs).flatten).flatten]
   | "unmerge", [[b, c], data] =>
     okG [(unmergeBC b.toNat c.toNat data).flatten, (unmergeCB b.toNat c.toNat data).flatten]
+  | "chunksum", [[k], data] =>
+    if k ≤ 0 then "err BadOp" else
+    let xs := pairs data
+    okG [unpairs [chunkSumFloor k.toNat xs], unpairs [chunkSumCeil k.toNat xs], unpairs [csum xs]]
   | _, _ => "err BadOp"
 
 end DirectVerif.Driver.C18
